@@ -185,6 +185,26 @@ func (t *Trans) topFn() *ssa.Function { return t.P.Funcs[t.topKey] }
 var inlineStack []*ssa.Function
 
 func (f *frame) call(res ssa.Value, c *ssa.CallCommon, st *State, cur string) (string, error) {
+	before := cur
+	out, err := f.call0(res, c, st, cur)
+	if err == nil && f.top && res != nil {
+		name := ""
+		if c.IsInvoke() {
+			name = c.Method.Name()
+		} else if fn := c.StaticCallee(); fn != nil {
+			name = fn.Name()
+		}
+		if name != "" {
+			if f.callLog == nil {
+				f.callLog = map[string][]callRec{}
+			}
+			f.callLog[name] = append(f.callLog[name], callRec{val: f.vals[res], cond: before})
+		}
+	}
+	return out, err
+}
+
+func (f *frame) call0(res ssa.Value, c *ssa.CallCommon, st *State, cur string) (string, error) {
 	t := f.t
 	B := t.B
 	plan := t.planCall(f, c)
@@ -301,35 +321,47 @@ func (f *frame) call(res ssa.Value, c *ssa.CallCommon, st *State, cur string) (s
 	if sig == nil {
 		sig = c.Signature()
 	}
+	cur = f.applyEffects(eff, st, cur, plan.name)
+	setRes(freshResults(sig, false))
+	return cur, nil
+}
+
+// applyEffects havocs what an effect summary says may change.
+func (f *frame) applyEffects(eff *effects, st *State, cur string, name string) string {
+	t := f.t
+	B := t.B
 	if eff.all {
-		t.trust("callee without contract, whole heap havocked: " + plan.name)
-		B.note("havoc call %s in %s", plan.name, f.fn.Name())
-		cur = t.havocAll(st, cur, !eff.trace)
-		setRes(freshResults(sig, false))
-		return cur, nil
+		t.trust("callee without contract, whole heap havocked: " + name + " (" + eff.why + ")")
+		B.note("whole-heap havoc at call of %s in %s: %s", name, f.fn.Name(), eff.why)
+		return t.havocAll(st, cur, !eff.trace)
 	}
-	t.trust("callee without contract, inferred modifies set havocked: " + plan.name)
-	bumpAlloc()
-	for _, name := range sortedKeys(eff.arrs) {
-		if strings.HasPrefix(name, "L:") {
+	t.trust("callee without contract, inferred modifies set havocked: " + name)
+	if eff.ext {
+		t.trust("external library callees are assumed not to modify objects of types declared in this repository")
+		cur = t.havocHeap(st, cur, !eff.trace, true)
+	}
+	old := st.alloc
+	st.alloc = B.declConst(B.fresh("alloc"), "Int")
+	cur = and(cur, fmt.Sprintf("(>= %s %s)", st.alloc, old))
+	for _, an := range sortedKeys(eff.arrs) {
+		if strings.HasPrefix(an, "L:") {
 			continue
 		}
-		sortA := t.descSort(eff.arrs[name])
-		if _, ok := t.arrSort[name]; !ok {
-			t.arrSort[name] = sortA
+		sortA := t.descSort(eff.arrs[an])
+		if _, ok := t.arrSort[an]; !ok {
+			t.arrSort[an] = sortA
 		}
-		st.heap[name] = B.declConst(B.fresh(name), sortA)
-		t.noteVersion(st.heap[name], st.alloc)
+		st.heap[an] = B.declConst(B.fresh(an), sortA)
+		t.noteVersion(st.heap[an], st.alloc)
 	}
-	if eff.trace {
+	if eff.trace && !eff.ext {
 		oldN, oldT := st.ntrace, st.trace
 		st.trace = B.declConst(B.fresh("trace"), "(Array Int Event)")
 		st.ntrace = B.declConst(B.fresh("ntrace"), "Int")
 		cur = and(cur, fmt.Sprintf("(>= %s %s)", st.ntrace, oldN),
 			fmt.Sprintf("(forall ((?i Int)) (! (=> (and (<= 0 ?i) (< ?i %s)) (= (select %s ?i) (select %s ?i))) :pattern ((select %s ?i))))", oldN, st.trace, oldT, st.trace))
 	}
-	setRes(freshResults(sig, false))
-	return cur, nil
+	return cur
 }
 
 func (f *frame) argVals(c *ssa.CallCommon) []*Val {
@@ -526,7 +558,10 @@ func (f *frame) contractCall(res ssa.Value, plan callPlan, c *ssa.CallCommon, st
 		st.alloc = B.declConst(B.fresh("alloc"), "Int")
 		cur = and(cur, fmt.Sprintf("(>= %s %s)", st.alloc, oa))
 	} else if !fc.HasMod && fc.Kind == "func" {
-		cur = t.havocAll(st, cur, false)
+		// no modifies clause: the inferred effect summary of the body is havocked
+		eff := newEffects()
+		t.contractEffects(plan, eff)
+		cur = f.applyEffects(eff, st, cur, fc.Key)
 	} else {
 		oa := st.alloc
 		st.alloc = B.declConst(B.fresh("alloc"), "Int")
@@ -544,23 +579,6 @@ func (f *frame) contractCall(res ssa.Value, plan callPlan, c *ssa.CallCommon, st
 				return cur, fmt.Errorf("%s: modifies %s: %v", fc.Where, m, err)
 			}
 		}
-	}
-	// emits
-	for _, em := range fc.Emits {
-		ev, err := envPre.eventTerm(em.Event, em.Args)
-		if err != nil {
-			return cur, fmt.Errorf("%s: emits %s: %v", fc.Where, em.Event, err)
-		}
-		cond := "true"
-		if em.Cond != "" {
-			cond, err = envPre.compileBool(em.Cond)
-			if err != nil {
-				return cur, err
-			}
-		}
-		nt := B.define("trace", "(Array Int Event)", ite(cond, fmt.Sprintf("(store %s %s %s)", st.trace, st.ntrace, ev), st.trace))
-		nn := B.define("ntrace", "Int", ite(cond, fmt.Sprintf("(+ %s 1)", st.ntrace), st.ntrace))
-		st.trace, st.ntrace = nt, nn
 	}
 	// results
 	rs := plan.sig.Results()
@@ -619,6 +637,23 @@ func (f *frame) contractCall(res ssa.Value, plan callPlan, c *ssa.CallCommon, st
 		if i == 0 {
 			envPost.vars["result"] = cval{term: rv.term, typ: rs.At(i).Type()}
 		}
+	}
+	// emits (arguments may mention the results: e.g. whether the call succeeded; the condition is evaluated in the pre-state)
+	for _, em := range fc.Emits {
+		ev, err := envPost.eventTerm(em.Event, em.Args)
+		if err != nil {
+			return cur, fmt.Errorf("%s: emits %s: %v", fc.Where, em.Event, err)
+		}
+		cond := "true"
+		if em.Cond != "" {
+			cond, err = envPost.with(old).compileBool(em.Cond)
+			if err != nil {
+				return cur, err
+			}
+		}
+		nt := B.define("trace", "(Array Int Event)", ite(cond, fmt.Sprintf("(store %s %s %s)", st.trace, st.ntrace, ev), st.trace))
+		nn := B.define("ntrace", "Int", ite(cond, fmt.Sprintf("(+ %s 1)", st.ntrace), st.ntrace))
+		st.trace, st.ntrace = nt, nn
 	}
 	for _, e := range fc.Ensures {
 		if e.Local {
